@@ -89,7 +89,7 @@ def rule_b_par(ctx):
                 s, _ = b.slice_back(r.loc, r.args[1:])
                 if not all(c.loc in s for c in ds):
                     why.append("the reduction does not combine the results of both drives")
-                if not (r.dest and r.dest["local"] == 0):
+                if not (r.dest and (r.dest["local"] == 0 or r.dest["local"] in b.ret_locals())):
                     why.append("the reduction is not the returned result")
         if len(dn) != 1:
             why.append("without an old table %d drive_unindexed calls are made (expected 1)" % len(dn))
@@ -97,12 +97,95 @@ def rule_b_par(ctx):
             c = dn[0]
             if path_role(ctx, b, c.arg_path(0)) != MAIN:
                 why.append("without an old table the part driven is not the main table's")
-            if not (c.dest and c.dest["local"] == 0):
+            if not (c.dest and (c.dest["local"] == 0 or c.dest["local"] in b.ret_locals())):
                 why.append("the single drive's result is not returned")
         R.inst(fn=b.path, drives_when_split=len(ds), drives_when_unsplit=len(dn), verdict="ok" if not why else "VIOLATION")
         if why:
             R.viol(key, b.where(Loc(0, 0)), "; ".join(why))
     return R
+
+
+HB_TABLEISH = ("hashbrown::raw::RawTable", "hashbrown::raw::rayon::RawParIter", "hashbrown::raw::rayon::RawIntoParIter", "hashbrown::raw::rayon::RawParDrain")
+
+
+def _two_halves_shape(ctx, vb):
+    """problems (list) with `vb` as the drive_unindexed of a parallel iterator that owns one table (or hashbrown parallel iterator) in a bare field
+    and one in an Option field"""
+    T = ctx.facts.types
+    why = []
+    st = T[strip_ref_ty(T, vb.locals[1]["ty"])]
+    adt = ctx.facts.adts.get(st.get("adt"))
+    if adt is None or adt["kind"] != "Struct":
+        return ["the inner iterator is not a struct of the crate"]
+    bare, opt = [], []
+    for i, f in enumerate(adt["variants"][0]["fields"]):
+        ft = T[f["ty"]]
+        if ft.get("adt") in HB_TABLEISH:
+            bare.append(i)
+        elif ft.get("adt") == "core::option::Option" and ft.get("args") and T[ft["args"][0]].get("adt") in HB_TABLEISH:
+            opt.append(i)
+    if len(bare) != 1 or len(opt) != 1:
+        return ["the inner iterator does not hold exactly one table and one optional table"]
+    calls = [c for c in ctx.calls(vb) if not vb.is_cleanup(c.loc.bb)]
+    drives = [c for c in calls if c.method == "drive_unindexed"]
+    splits = [c for c in calls if c.method == "split_off_left"]
+    reduces = [c for c in calls if c.method == "reduce"]
+
+    def fields_of(c):
+        s_, _ = vb.slice_back(c.loc, [c.args[0]])
+        out = set()
+        for l in s_:
+            pls = []
+            if l.i < len(vb.stmts(l.bb)):
+                st_ = vb.stmts(l.bb)[l.i]
+                if st_["k"] != "assign":
+                    continue
+                rv = st_["rv"]
+                if "place" in rv:
+                    pls.append(rv["place"])
+                if rv["k"] == "use" and rv["op"]["k"] in ("copy", "move"):
+                    pls.append(rv["op"]["place"])
+            else:
+                t_ = vb.term(l.bb)
+                pls += [a["place"] for a in t_.get("args", []) if a["k"] in ("copy", "move")]
+            for pl in pls:
+                p = vb.expand(pl)
+                if p.root == 1 and p.fields():
+                    out.add(p.fields()[0][2])
+        return out
+    per = [(c, fields_of(c)) for c in drives]
+    both = [c for c, fs in per if fs & set(opt)]
+    main_only = [c for c, fs in per if fs == set(bare)]
+    if len(both) != 1:
+        why.append("%d drives of the optional table (expected 1)" % len(both))
+    if len(main_only) != 2:
+        why.append("%d drives of the bare table (expected one next to the optional table's and one on its own)" % len(main_only))
+    if why:
+        return why
+    O = both[0]
+    partner = [c for c in main_only if c.loc.bb in vb.reach_from([0]) and (O.loc.bb in vb.reach_from([c.loc.bb]) or c.loc.bb in vb.reach_from([O.loc.bb]))]
+    alone = [c for c in main_only if c not in partner]
+    if len(partner) != 1 or len(alone) != 1:
+        return ["the drives of the bare table are not one beside the optional table's drive and one without it"]
+    cons = []
+    for c in (O, partner[0]):
+        s_, args = vb.slice_back(c.loc, [c.args[1]])
+        cons.append("left" if any(sp.loc in s_ for sp in splits) else "rest" if (2 in args or (c.arg_path(1) is not None and c.arg_path(1).root == 2)) else "?")
+    if sorted(cons) != ["left", "rest"]:
+        why.append("the two halves are driven with consumers %s (expected the split-off left half and the remainder)" % cons)
+    if len(reduces) != 1:
+        why.append("%d reduce calls (expected 1)" % len(reduces))
+    else:
+        r = reduces[0]
+        s_, _ = vb.slice_back(r.loc, r.args[1:])
+        if not (O.loc in s_ and partner[0].loc in s_):
+            why.append("the reduction does not combine both halves")
+        if not (r.dest and (r.dest["local"] == 0 or r.dest["local"] in vb.ret_locals())):
+            why.append("the reduction is not the returned result")
+    a = alone[0]
+    if not (a.dest and (a.dest["local"] == 0 or a.dest["local"] in vb.ret_locals())):
+        why.append("the lone drive's result is not returned")
+    return why
 
 
 def rule_p_wrap(ctx):
@@ -128,6 +211,23 @@ def rule_p_wrap(ctx):
         comp_fields = [c for c in calls if c.method == "drive_unindexed" and c.arg_path(0) is not None and c.arg_path(0).root == 1 and c.arg_path(0).fields()
                        and T[strip_ref_ty(T, c.args[0]["place"]["ty"])].get("adt") in ctx.roles.composites
                        and ctx.roles.composites[T[strip_ref_ty(T, c.args[0]["place"]["ty"])]["adt"]]["family"].startswith("par")]
+        priv = [c for c in calls if c.method == "drive_unindexed" and c.arg_path(0) is not None and c.arg_path(0).root == 1 and c.arg_path(0).fields()
+                and c.local_callee() is not None and not ctx.facts.adts.get(T[strip_ref_ty(T, c.args[0]["place"]["ty"])].get("adt"), {"exported": True}).get("exported")]
+        if not raw and not comp_fields and len(priv) == 1 and len([c for c in calls if c.method == "drive_unindexed"]) == 1:
+            # delegation to a private parallel iterator of the crate that owns the two tables themselves: its own drive_unindexed must have the
+            # two-halves shape (both of its table fields driven once each with the split consumer, results reduced; the bare one alone otherwise)
+            n += 1
+            d = priv[0]
+            why = _two_halves_shape(ctx, d.local_callee())
+            q = d.arg_path(1)
+            if q is None or q.root != 2:
+                why.append("not driven with the caller's consumer")
+            if not (d.dest and d.dest["local"] in b.ret_locals()):
+                why.append("the drive's result is not returned")
+            R.inst(fn=b.path, over="private two-table parallel iterator %s" % d.local_callee().path, verdict="ok" if not why else "VIOLATION")
+            if why:
+                R.viol(b.path, b.where(Loc(0, 0)), "; ".join(why))
+            continue
         if not raw and comp_fields:
             # an owning public parallel iterator that holds the raw owning composite in a field: driven once with the caller's consumer, result
             # returned; every construction of the public type fills the field from a split table's own constructor of that composite
